@@ -35,7 +35,9 @@ def build_call(u, T):
         rt = (1.3 + 0.7 * u.below(100) / 100.0) * T
     else:
         rt = None
-    return {"strays": strays, "reply": reply, "reply_at": None if rt is None else round(rt, 4)}
+    # every blocking entry point shares the deadline logic but has its own timeout mapping in the Python layer
+    op = ("get", "get", "get", "get_many", "getnext", "getbulk", "get", "fetch")[u.below(8)]
+    return {"strays": strays, "reply": reply, "reply_at": None if rt is None else round(rt, 4), "op": op}
 
 
 def build_schedule(u):
@@ -65,6 +67,26 @@ def run_schedule(args):
     cfg = {"v1": ag.Cfg("v1"), "v2c": ag.Cfg("v2c"),
            "v3": ag.Cfg("v3", engine_id=gen.ENGINE_IDS[0], auth="sha1", auth_kt="localized")}[sched["ver"]]
     vb = [rb.varbind(rb.enc_oid((1, 3, 6, 1, 2, 1, 1, 3, 0)), rb.enc_int(4242))]
+
+    def sync_call(s, op):
+        if cfg.version == "v1" and op in ("getbulk",):
+            op = "getnext"
+        if op == "get":
+            return s.get("1.3.6.1.2.1.1.3.0")
+        if op == "get_many":
+            return list(s.get_many(["1.3.6.1.2.1.1.3.0"]).values())[0]
+        it = {"getnext": lambda: s.getnext("1.3.6.1.2.1.1"), "getbulk": lambda: s.getbulk("1.3.6.1.2.1.1", 3), "fetch": lambda: s.fetch("1.3.6.1.2.1.1")}[op]()
+        return next(iter(it))[1]
+
+    async def async_call(s, op):
+        if cfg.version == "v1" and op in ("getbulk",):
+            op = "getnext"
+        if op == "get":
+            return await s.get("1.3.6.1.2.1.1.3.0")
+        if op == "get_many":
+            return list((await s.get_many(["1.3.6.1.2.1.1.3.0"])).values())[0]
+        it = {"getnext": lambda: s.getnext("1.3.6.1.2.1.1"), "getbulk": lambda: s.getbulk("1.3.6.1.2.1.1", 3), "fetch": lambda: s.fetch("1.3.6.1.2.1.1")}[op]()
+        return (await it.__anext__())[1]
 
     def events_of(call):
         return sorted([(t, "stray") for t in call["strays"]] + ([(call["reply_at"], "reply")] if call["reply_at"] is not None else []))
@@ -112,7 +134,7 @@ def run_schedule(args):
         for call in sched["calls"]:
             t0 = time.monotonic()
             try:
-                v = s.get("1.3.6.1.2.1.1.3.0")
+                v = sync_call(s, call.get("op", "get"))
                 out = ("ok", v)
             except TimeoutError:
                 out = ("timeout", None)
@@ -152,7 +174,7 @@ def run_schedule(args):
             state["i"] = i
             t0 = time.monotonic()
             try:
-                v = await s.get("1.3.6.1.2.1.1.3.0")
+                v = await async_call(s, call.get("op", "get"))
                 out = ("ok", v)
             except TimeoutError:
                 out = ("timeout", None)
@@ -200,7 +222,7 @@ def judge_call(sched, i, r):
     call = sched["calls"][i]
     slack = max(0.12, 0.5 * T)
     desc = "%s/%s T=%.2fs call %d of %d: strays at %r, reply %s%s -> %s after %.3fs" % (
-        sched["driver"], sched["ver"], T, i + 1, len(sched["calls"]), call["strays"], call["reply"],
+        sched["driver"] + ":" + call.get("op", "get"), sched["ver"], T, i + 1, len(sched["calls"]), call["strays"], call["reply"],
         "" if call["reply_at"] is None else " at %.3f" % call["reply_at"], r["outcome"], r["elapsed"])
     if i:
         desc += " (earlier calls on this session: %r)" % ([(c["strays"], c["reply"]) for c in sched["calls"][:i]],)
@@ -299,6 +321,7 @@ def run(rep, tier):
                 continue
         rep.case(repr(s), nt, sample={"schedule": s, "outcomes": [x["outcome"] for x in r], "elapsed_s": [round(x["elapsed"], 3) for x in r]},
                  classes=["driver:" + s["driver"], "ver:" + s["ver"], "calls:%d" % len(s["calls"])] + ["reply:" + c_["reply"] for c_ in s["calls"]]
+                 + ["op:" + c_.get("op", "get") for c_ in s["calls"]]
                  + ["strays:%d" % min(len(c_["strays"]), 4) for c_ in s["calls"]] + ["outcome:" + x["outcome"] for x in r])
     rep.extra["scheduling_noise_events"] = noise
 
